@@ -1,8 +1,10 @@
 (* Property C09 - no detection during / directly after an FFC; no comparison across an FFC
    or a camera reset. *)
+From Coq Require Import String.
 From Coq Require Import List ZArith Bool.
 From TR Require Import model.Ring model.Detector model.DetSpec proofs.DetC07 proofs.DetC09.
 (* constants and wiring read from the Go sources on every run *)
+From TR Require Import model.GoSem translated.MotionProcessor proofs.TieCorollaries.
 From TR Require Import proofs.FactsDet.
 From TR Require Import model.DetExt proofs.TieDet.
 Import ListNotations.
@@ -68,3 +70,15 @@ Theorem C09_source_tie : forall c evs,
     thresh_bounded_from c (dinit c) evs = true ->
     map (dproj c) (src_dtrace c evs) = model_dtrace c (dinit c) evs.
 Proof. exact tie_detector. Qed.
+
+(* The camera's 'clear' as motionprocessor.go handles it now: whatever stopping the open recording
+   returns, MotionProcessor.Reset resets the detector - exactly once, after the stop - for every
+   meaning of the outside world. *)
+Theorem C09_source_reset_reaches_detector : forall (W : Type) (ext : string -> list arg -> W -> Z * W) mp w,
+    match MotionProcessor_stopRecording ext mp w with
+    | Ok (mp', _) w1 =>
+      MotionProcessor_Reset ext mp w =
+        Ok (mp', tt) (snd (ext "MotionProcessor.motionDetector.Reset"%string [ASym "camera"%string] w1))
+    | Panicked w1 => MotionProcessor_Reset ext mp w = Panicked w1
+    end.
+Proof. exact Reset_resets_detector. Qed.
